@@ -1,6 +1,6 @@
 From Coq Require Import List Bool String Arith.
 Import ListNotations.
-Require Import MV.Spec.Types MV.Model.Validate MV.Model.ValidateChain MV.Model.ValidateSet.
+Require Import MV.Spec.Types MV.Model.Validate MV.Model.ValidateChain MV.Model.ValidateSet MV.Model.ValidateSetCheck.
 Open Scope string_scope.
 Open Scope list_scope.
 
@@ -277,4 +277,88 @@ Proof.
     destruct (flatten_deps_strict (r_deps r) Hd) as (ds & -> & Hds). rewrite Hr.
     eexists; split; [reflexivity|]. intros u [<- | Hu]; [reflexivity|].
     apply in_app_iff in Hu as [Hu | Hu]; [apply Hds | apply Hs]; exact Hu.
+Qed.
+
+(* ---- the verdict of the engine model = the statement (spec_request), for ALL requests, links, indexes and filters ---- *)
+Lemma untyped_never_raises strict lenient cols e : typed e = false -> validate_raises strict lenient (entry_vcase cols e) = false.
+Proof. unfold typed, validate_raises, entry_vcase; cbn [v_declared]. destruct (e_type e); [discriminate | reflexivity]. Qed.
+
+Lemma run_mismatch_typed_ext strict lenient cols l1 l2 :
+  (forall e, typed e = true -> (In e l1 <-> In e l2)) -> run_mismatch strict lenient cols l1 = run_mismatch strict lenient cols l2.
+Proof.
+  intros H. unfold run_mismatch.
+  assert (D : forall a b, (forall e, typed e = true -> (In e a <-> In e b)) ->
+              existsb (fun e => validate_raises strict lenient (entry_vcase cols e)) a = true ->
+              existsb (fun e => validate_raises strict lenient (entry_vcase cols e)) b = true).
+  { intros a b Hab Ha. apply existsb_exists in Ha as (e & Hin & Hv). apply existsb_exists. exists e; split; [|exact Hv].
+    apply Hab; [|exact Hin]. destruct (typed e) eqn:T; [reflexivity|]. rewrite (untyped_never_raises _ _ _ _ T) in Hv; discriminate. }
+  destruct (existsb _ l1) eqn:E1, (existsb _ l2) eqn:E2; try reflexivity.
+  - rewrite (D l1 l2 H E1) in E2; discriminate.
+  - assert (H' : forall e, typed e = true -> (In e l2 <-> In e l1)) by (intros e T; symmetry; apply H; exact T).
+    rewrite (D l2 l1 H' E2) in E1; discriminate.
+Qed.
+
+Lemma typed_collection_is_declared groups links filters us coll :
+  collect groups links filters us = Some coll ->
+  forall e, typed e = true -> (In e coll <-> In e (declared_entries groups filters us)).
+Proof.
+  intros H e T. unfold collect, collect_with in H. split.
+  - intros Hin. apply (collect_from_In _ _ _ _ _ _ _ H) in Hin as [[] | (u & es & Hu & Hp & Hx)].
+    apply process_feature_some in Hp as (g & t & Hg & Hd & ->).
+    unfold declared_entries. apply in_flat_map. exists u; split; [exact Hu|]. rewrite Hg, Hd.
+    apply filter_In; split; [|exact T].
+    destruct Hx as [<- | Hx]; [left; reflexivity|]. apply in_app_iff in Hx as [Hx | Hx]; [right; exact Hx|].
+    apply (index_features_untyped _ create_index_feature_untyped) in Hx. unfold typed in T; rewrite Hx in T; discriminate.
+  - intros Hin. unfold declared_entries in Hin. apply in_flat_map in Hin as (u & Hu & Hin).
+    destruct (nth_error groups (u_group u)) as [g|] eqn:Hg; [|destruct Hin].
+    destruct (declared_type groups u) as [t|] eqn:Hd; [|destruct Hin].
+    apply filter_In in Hin as [Hin _].
+    destruct (process_feature create_index_feature groups links filters u) as [es|] eqn:Hp.
+    + destruct (process_feature_some _ _ _ _ _ _ Hp) as (g' & t' & Hg' & Hd' & Hes).
+      rewrite Hg in Hg'; injection Hg' as <-. rewrite Hd in Hd'; injection Hd' as <-.
+      apply (collect_from_In _ _ _ _ _ _ _ H). right. exists u, es; repeat split; auto. rewrite Hes.
+      destruct Hin as [<- | Hin]; [left; reflexivity | right; apply in_app_iff; left; exact Hin].
+    + exfalso. exact (collect_from_all_ok _ _ _ _ _ _ _ H u Hu Hp).
+Qed.
+
+Lemma existsb_undeclarable groups us :
+  existsb (undeclarable groups) us = true <-> exists u, In u us /\ declared_type groups u = None.
+Proof.
+  rewrite existsb_exists. unfold undeclarable. split; intros (u & Hu & H); exists u; split; auto.
+  - destruct (declared_type groups u); [discriminate | reflexivity].
+  - rewrite H; reflexivity.
+Qed.
+
+Lemma run_request_is_spec strict lenient groups links filters api rs cols :
+  fst (run_request strict lenient groups links filters api rs cols) = spec_request strict lenient groups filters api rs cols.
+Proof.
+  unfold run_request, spec_request. destruct (flatten api rs) as [us|]; [|reflexivity].
+  destruct (collect groups links filters us) as [coll|] eqn:Hc.
+  - assert (E : existsb (undeclarable groups) us = false).
+    { destruct (existsb (undeclarable groups) us) eqn:E; [|reflexivity].
+      apply existsb_undeclarable in E. apply (collect_with_none create_index_feature groups links filters us) in E.
+      unfold collect in Hc; rewrite Hc in E; discriminate. }
+    rewrite E. rewrite (run_mismatch_typed_ext strict lenient cols coll (declared_entries groups filters us)
+                          (typed_collection_is_declared _ _ _ _ _ Hc)).
+    destruct (run_mismatch strict lenient cols (declared_entries groups filters us)); reflexivity.
+  - unfold collect in Hc. apply collect_with_none in Hc. apply existsb_undeclarable in Hc. rewrite Hc. reflexivity.
+Qed.
+
+(* with filters given by column name the declarations are those on the user's features alone *)
+Lemma declared_entries_undeclared_filters groups filters us e :
+  undeclared_filters filters ->
+  (In e (declared_entries groups filters us) <->
+   exists u d, In u us /\ declared_type groups u = Some (Some d) /\ e = user_entry u (Some d)).
+Proof.
+  intros Hf. unfold declared_entries. rewrite in_flat_map. split.
+  - intros (u & Hu & Hin). destruct (nth_error groups (u_group u)) as [g|] eqn:Hg; [|destruct Hin].
+    destruct (declared_type groups u) as [t|] eqn:Hd; [|destruct Hin].
+    apply filter_In in Hin as [Hin T]. destruct Hin as [<- | Hin].
+    + unfold typed in T; cbn [user_entry e_type] in T. destruct t as [d|]; [|discriminate]. exists u, d; auto.
+    + unfold add_filter_features in Hin. apply in_map_iff in Hin as (f & <- & Hfi). apply filter_In in Hfi as [Hfi _].
+      unfold typed in T; cbn [filter_feature e_type] in T. rewrite (Hf f Hfi) in T; discriminate.
+  - intros (u & d & Hu & Hd & ->). exists u; split; [exact Hu|].
+    assert (Hg : exists g, nth_error groups (u_group u) = Some g).
+    { unfold declared_type in Hd. destruct (nth_error groups (u_group u)) as [g|]; [exists g; reflexivity | discriminate]. }
+    destruct Hg as (g & Hg). rewrite Hg, Hd. apply filter_In; split; [left; reflexivity | reflexivity].
 Qed.
